@@ -254,4 +254,11 @@ theorem flag_bit5 (flags : Nat) : (decide (Py.band (Py.shr (flags : Int) 5) 1 â‰
   flag_bit flags 5
 end MPEGAdaptionExtension
 
+/-- `x & 0xFFFF` = `x % 65536` for the length expression of `UDP.pack` (lets the tie survive that rewrite) -/
+theorem band_len8_mask (n : Nat) : Acra.Py.band ((n : Int) + 8) 65535 = Acra.Py.pymod ((n : Int) + 8) 65536 := by
+  have h : ((n : Int) + 8) = ((n + 8 : Nat) : Int) := by simp
+  rw [h, Acra.Py.band_natCast_lit, Acra.Py.pymod_of_pos _ _ (by omega)]
+  rw [show ((n + 8 : Nat) &&& 65535) = (n + 8) % 65536 from Nat.and_two_pow_sub_one_eq_mod (n + 8) 16]
+  omega
+
 end Acra.Lemmas.SrcTieCls
